@@ -481,6 +481,9 @@ class Wire(Suite):
         specs = {"ff": ["refs/heads/*:refs/heads/*"], "diverged": [rng.choice(["refs/heads/main:refs/heads/main", "+refs/heads/main:refs/heads/main", "refs/heads/*:refs/heads/*"])],
                  "delete": [":refs/heads/old"], "tags": ["refs/heads/main:refs/heads/main", "refs/tags/*:refs/tags/*"],
                  "shallow": ["refs/heads/main:refs/heads/main"]}[b]
+        follow = b == "tags" and rng.random() < 0.5
+        if follow:
+            specs = ["refs/heads/main:refs/heads/main"]      # one branch: addReachableTags adds each reachable annotated tag once
         local = root + "/local"
         shallow = []
         ids = None
@@ -501,7 +504,7 @@ class Wire(Suite):
         mkrepo(remote0, w, remote_refs, ids=reach(w, [t for _, t in remote_refs]))
         ref_remote = root + "/remote-ref"
         shutil.copytree(remote0, ref_remote)
-        p = git(local, "push", "-q", "file://" + ref_remote, *specs, ok=False)
+        p = git(local, "push", "-q", *(["--follow-tags"] if follow else []), "file://" + ref_remote, *specs, ok=False)
         git_ok = p.returncode == 0
         want = repo_state(ref_remote)
         problems = []
@@ -511,7 +514,8 @@ class Wire(Suite):
             shutil.copytree(remote0, rdir)
             ldir = root + "/local-" + server
             shutil.copytree(local, ldir)
-            case = {"id": 0, "op": "wire", "mode": "push", "server": server, "client_dir": ldir, "server_dir": rdir, "specs": specs}
+            case = {"id": 0, "op": "wire", "mode": "push", "server": server, "client_dir": ldir, "server_dir": rdir, "specs": specs,
+                    "follow_tags": follow}
             pr = subprocess.run([bin_], input=(json.dumps(case) + "\n").encode(), stdout=subprocess.PIPE, stderr=subprocess.PIPE, env=ENV, timeout=180)
             self.stats["pushes_run"] += 1
             try:
